@@ -77,7 +77,18 @@ def gen_ovld(seed, index):
     while len(ops) < n:
         if derive_at is not None and len(ops) >= derive_at and not child:
             # a linked child (copy with linkback): every change to f must show up in it too
-            ops.append({"op": "derive_lb"})
+            o = {"op": "derive_lb"}
+            srcs = [m for m in pool if spec["methods"][m]["params"]
+                    and spec["methods"][m]["params"][0][1] == "pos"]
+            if srcs and rng.random() < 0.6:
+                # the child gets a method of its own (for a class no corpus argument is related to):
+                # its behaviour on the corpus stays "whatever the parent's current methods say"
+                gen.extra_class(spec, "KG")
+                params = json.loads(json.dumps(spec["methods"][rng.choice(srcs)]["params"]))
+                params[0][2] = ["c", "KG"]
+                spec["methods"]["mown"] = {"params": params, "prio": 0, "body": ["leaf"]}
+                o["own"] = rng.choice(["g", "gg", "g"])
+            ops.append(o)
             child = True
         k = weighted(rng, [("obs", 45), ("reg", 22), ("unreg", 15), ("rereg", 10), ("prio", 8),
                            ("call_mut", 12 if (can_mut and kid_pool) else 0)])
@@ -143,6 +154,7 @@ def execute_ovld(scen):
     spec = scen["spec"]
     h = Harness(spec, [])
     regs = []
+    own_in = set()
     violation = None
     trace = []
     nobs = 0
@@ -206,14 +218,21 @@ def execute_ovld(scen):
                 gg = g.copy(linkback=True)  # and a linked grandchild
                 gg.rename("gg", "gg")
                 h.w.funcs["gg"] = gg
+                if op.get("own") and "mown" in spec["methods"]:
+                    h.w.register(op["own"], "mown")
+                    # the reference of a child is a fresh function holding the parent's current
+                    # methods and then the child's own one
+                    own_in.update({"g", "gg"} if op["own"] == "g" else {"gg"})
             trace.append("derive")
             continue
         if op["op"] == "call":
             if op.get("on") in ("g", "gg") and op["on"] in h.w.funcs:
                 out = h.w.call(op["on"], op["c"])
+                ref = ref_outcomes(spec, regs + ([["mown", None]] if op["on"] in own_in else []),
+                                   [op["c"]], scen["label"])[0]
             else:
                 out = h.apply(op)
-            ref = ref_outcomes(spec, regs, [op["c"]], scen["label"])[0]
+                ref = ref_outcomes(spec, regs, [op["c"]], scen["label"])[0]
             trace.append(out)
             nobs += 1
             seen_obs = True
@@ -236,7 +255,8 @@ def execute_ovld(scen):
         if violation is not None or child_name not in h.w.funcs:
             continue
         probes = [h.w.call(child_name, c) for c in scen["corpus"]]
-        ref = ref_outcomes(spec, regs, scen["corpus"], scen["label"])
+        ref = ref_outcomes(spec, regs + ([["mown", None]] if child_name in own_in else []),
+                           scen["corpus"], scen["label"])
         if probes != ref:
             i = next(i for i, (a, b) in enumerate(zip(probes, ref)) if a != b)
             violation = {"clause": "after the history a linked child differs from a freshly built function",
